@@ -62,6 +62,52 @@ deriving Repr
 def TSpec.eval (p : TSpec) : Composed :=
   { retry := p.retry.map CTree.eval, wait := p.wait.eval, stop := p.stop.eval }
 
+
+/-! ### attempt bounds of a stop tree (executable; their meaning is proved in `WfProofs/PolicyBudget.lean`)
+
+`thr q = ⌈q⌉`: `stop_after_attempt(q)` answers `attempts >= q`.  Extended naturals `Option Nat` with `none = ∞`:
+`stop_any` takes the least bound of its operands, `stop_all` the greatest (`stop_any()` never stops: `∞`; `stop_all()`
+always stops: `0`).  `STree.cap`: from this failure count on the tree is true whatever the clock says; `STree.lo`: below
+this failure count it is false whatever the clock says. -/
+
+def thr (q : Rat) : Nat := q.ceil.toNat
+
+def emin : Option Nat → Option Nat → Option Nat
+  | some a, some b => some (min a b)
+  | some a, none => some a
+  | none, b => b
+
+def emax : Option Nat → Option Nat → Option Nat
+  | some a, some b => some (max a b)
+  | _, _ => none
+
+mutual
+def STree.bound (lb : SLeaf → Option Nat) : STree → Option Nat
+  | .leaf l => lb l
+  | .any ts => STree.boundAny lb ts
+  | .all ts => STree.boundAll lb ts
+def STree.boundAny (lb : SLeaf → Option Nat) : List STree → Option Nat
+  | [] => none
+  | t :: ts => emin (t.bound lb) (STree.boundAny lb ts)
+def STree.boundAll (lb : SLeaf → Option Nat) : List STree → Option Nat
+  | [] => some 0
+  | t :: ts => emax (t.bound lb) (STree.boundAll lb ts)
+end
+
+def capLeaf : SLeaf → Option Nat
+  | .afterAttempt q => some (thr q)
+  | _ => none
+
+def loLeaf : SLeaf → Option Nat
+  | .afterAttempt q => some (thr q)
+  | .never => none
+  | _ => some 0
+
+/-- from `cap` failures on the stop condition holds, on every clock -/
+def STree.cap : STree → Option Nat := STree.bound capLeaf
+/-- below `lo` failures the stop condition does not hold, on any clock -/
+def STree.lo : STree → Option Nat := STree.bound loLeaf
+
 /-! ### `Context.retry_info()` -/
 
 /-- `RetryAttempt` (the part `retry_info` reads): `first_attempt_at` is a float defaulting to `0.0` -/
